@@ -4,4 +4,4 @@ From Coq Require Extraction.
 From GV Require Import Model.FlowSend.
 Extraction Language OCaml.
 Definition force_types : Z * N * nat := (Z.of_N (N.of_nat (Z.to_nat 0%Z)), 0%N, 0%nat).
-Extraction "../build/ml/mC07.ml" force_types init step run fifo_result quiescent local_window.
+Extraction "../build/ml/mC07.ml" force_types init step run fifo_result quiescent local_window cinit cstep crun cfifo.
